@@ -2,7 +2,7 @@
     (a) transcript level [tree_transcript_roundtrip]: for every rose tree T with distinct keys, what the writer's
         loop writes on T's tables is read by the reader model as T renumbered in the order of writing ([gtree]);
     (b) graph level [tree_graph_roundtrip]: for every "plain" networkx graph g (names, integer orders 0..4 on every
-        adjacency entry, no aromatic flag, no bonding) without non-tree edges, write_cgsmiles_graph g [] is read
+        adjacency entry, no bonding) without non-tree edges, write_cgsmiles_graph g [] is read
         back as [gtree] of g's own DFS tree, with g's names and orders.
     Reader half: reader_sim_lin (component Reader) + [machine_tree]; writer half: write_tree_transcript +
     dfs_shape.  No class is excluded: the writer never closes two branches in a row and a tree has no rings. *)
